@@ -171,4 +171,68 @@ def validateArgs (ok : String → String → Bool) (args : List CArg) : List (St
       | some (i, aty) => (if ok aty pt then [] else [i]) ++ validateArgs ok args ps (k + 1)
       | none => validateArgs ok args ps k
 
+/-- Where the position counter of `validateArgs` ends: how many positional arguments the parameters consumed. -/
+def consumedPositionals (args : List CArg) : List (String × String) → Nat → Nat
+  | [], k => k
+  | (pn, _) :: ps, k =>
+    match findNamed pn args 0 with
+    | some _ => consumedPositionals args ps k
+    | none => match (positionals args 0)[k]? with
+      | some _ => consumedPositionals args ps (k + 1)
+      | none => consumedPositionals args ps k
+
+/-- Arguments no parameter takes: the first surplus positional one and every keyword naming no parameter
+(indices in the argument list). -/
+def surplusArgs (args : List CArg) (ps : List (String × String)) : List Nat :=
+  (match (positionals args 0)[consumedPositionals args ps 0]? with
+   | some (i, _) => [i]
+   | none => []) ++
+  (List.range args.length).filter fun i => match (args[i]?).bind (·.name) with
+    | some n => !(ps.map (·.1)).contains n
+    | none => false
+
+/-- `check_required_arguments`: parameters bound neither by keyword nor by position and without a default. -/
+def missingParams (args : List CArg) (defaults : List String) : List (String × String) → Nat → List String
+  | [], _ => []
+  | (pn, _) :: ps, left =>
+    if args.any (fun a => a.name == some pn) then missingParams args defaults ps left
+    else if left > 0 then missingParams args defaults ps (left - 1)
+    else (if defaults.contains pn then [] else [pn]) ++ missingParams args defaults ps left
+
+def positionalCount (args : List CArg) : Nat := (args.filter fun a => a.name.isNone).length
+
+/-! ### Trait adoption (`check_trait_conformance` / `check_trait_conformance_model`, check_decl.rs) -/
+
+structure TraitSpec where
+  requires : List (String × String)            -- `@requires(field: Type)`
+  methods : List (String × Bool × String)      -- name, has a default body, signature
+
+/-- The adopter's effective members (own + inherited for classes). -/
+structure Adopter where
+  fields : List (String × String)
+  methods : List (String × String)
+
+inductive ConfErr where
+  | missingField (f : String)
+  | fieldType (f : String)
+  | missingMethod (m : String)
+  | methodSig (m : String)
+deriving Repr, DecidableEq
+
+def lookupS (k : String) : List (String × String) → Option String
+  | [] => none
+  | (k', v) :: rest => if k' == k then some v else lookupS k rest
+
+/-- The diagnostics of one adoption (`okTy found required` is `types_compatible`, `okSig required found` is
+`method_sigs_compatible`).  Their order is irrelevant to the property; the implementation sorts the method part. -/
+def conformance (okTy okSig : String → String → Bool) (t : TraitSpec) (a : Adopter) : List ConfErr :=
+  (t.requires.flatMap fun (f, ty) => match lookupS f a.fields with
+    | none => [.missingField f]
+    | some fty => if okTy fty ty then [] else [.fieldType f]) ++
+  (t.methods.flatMap fun (m, hasBody, sig) =>
+    if hasBody then []
+    else match lookupS m a.methods with
+      | none => [.missingMethod m]
+      | some s => if okSig sig s then [] else [.methodSig m])
+
 end Incan.Checker
